@@ -214,7 +214,7 @@ func lenClass(n, bs int) string {
 
 func tagsWL(x *mon.Ctx) {
 	selftest(x)
-	maxLen := 80
+	maxLen := x.Scale(80, 400) // thorough: every length up to 25 SM4 blocks (50 DES blocks)
 	for s := mac.CBCMAC; s <= mac.CBCR; s++ {
 		for _, f := range families {
 			for _, ps := range pads {
@@ -396,7 +396,7 @@ func oneTag(c *mon.Case, s int, f family, ps padSel, n, size int) {
 func cmacStreamWL(x *mon.Ctx) {
 	selftest(x)
 	gw, gs := mon.NewGuard(4096), mon.NewGuard(4096)
-	for i := 0; i < x.Scale(6000, 150000); i++ {
+	for i := 0; i < x.Scale(12000, 1200000); i++ {
 		c := x.Begin("cmacstream #%d", i)
 		if c == nil {
 			continue
@@ -518,7 +518,7 @@ func injectWL(x *mon.Ctx) {
 		for _, f := range families {
 			lens := []int{1, f.bs - 1, f.bs, f.bs + 1, 2 * f.bs, 2*f.bs + f.bs/2}
 			for _, n := range lens {
-				for rep := 0; rep < x.Scale(2, 20); rep++ {
+				for rep := 0; rep < x.Scale(4, 120); rep++ {
 					c := x.Begin("inject scheme=%s cipher=%s len=%d rep=%d", mac.Names[s], f.name, n, rep)
 					if c == nil {
 						continue
